@@ -24,6 +24,14 @@ def gen(tier, rng):
                 s += ['next 0'] * (total + 2)
                 s += ['kill 0', 'call 1 0', 'sat 0', 'satd 0', 'next 1', 'kill 1', 'release 0']
                 out.append(s)
+                # the completion clause written before / between the CO_YIELD clauses
+                for pos in range(len(ys)):
+                    if len(ys) == 4 and pos not in (0, 2):
+                        continue
+                    s = ['expect 0 %s v Y %s R %s P %d' % (start, ' '.join(ys), r, pos), 'call 0 0', 'call 1 0']
+                    s += ['next 0'] * (total + 1) + ['next 1'] * (total + 1)
+                    s += ['kill 0', 'kill 1', 'release 0']
+                    out.append(s)
                 # two coroutines of the same expectation, several interleavings
                 if len(ys) <= 2:
                     pulls = ['a'] * (total + 1) + ['b'] * (total + 1)
